@@ -34,8 +34,9 @@ Definition CompOK (st : state) : Prop :=
     o_data oi = DDom li -> o_data oj = DDom lj ->
     starred (o_name oi) = false -> o_name oj = o_name oi ++ [cStar] -> li = lj.
 
+(* live domains have a non-zero length and a non-empty name *)
 Definition NoZero (st : state) : Prop :=
-  forall i o l, live_obj (heap st) i o -> o_data o = DDom l -> l <> 0%Z.
+  forall i o l, live_obj (heap st) i o -> o_data o = DDom l -> l <> 0%Z /\ nonempty (o_name o) = true.
 
 Definition data_kind (d : odata) : kind :=
   match d with DDom _ => KindD | DCplx _ _ _ => KindC | DStrand _ => KindS | DMac _ _ => KindM | DRxn _ _ _ => KindR end.
@@ -125,10 +126,10 @@ Definition PartnerOK (st : state) (c : nat) (nm : pstr) (l : Z) : Prop :=
                   o_data op = DDom lp -> lp = l.
 
 Lemma dok_create_dom ct st c auto nm l :
-  DOK ct st -> class_kind ct c = Some KindD -> PartnerOK st c nm l -> l <> 0%Z ->
+  DOK ct st -> class_kind ct c = Some KindD -> PartnerOK st c nm l -> l <> 0%Z -> nonempty nm = true ->
   DOK ct (fst (create ct st c auto nm (KDom nm l) [] [] (DDom l))).
 Proof.
-  intros [C [Z K]] Hk P Hl. split; [|split].
+  intros [C [Z K]] Hk P Hl Hne. split; [|split].
   - intros i j oi oj li lj Hi Hj Ec Di Dj Hs Hn.
     apply create_live in Hi. apply create_live in Hj.
     destruct Hi as [Hi| ->], Hj as [Hj| ->].
@@ -144,7 +145,7 @@ Proof.
       apply (P (or_introl Hs) j oj lj Hj (eq_sym Ec)); [|exact Dj]. rewrite cname_unstarred by exact Hs. exact Hn.
     + cbn in Hn. exfalso. eapply app_star_neq; eauto.
   - intros i o l' Hi Di. apply create_live in Hi. destruct Hi as [Hi| ->]; [exact (Z i o _ Hi Di)|].
-    cbn in Di. injection Di as <-. exact Hl.
+    cbn in Di. injection Di as <-. split; [exact Hl | exact Hne].
   - intros i o Hi. apply create_live in Hi. destruct Hi as [Hi| ->]; [apply (K i o Hi) | exact Hk].
 Qed.
 
@@ -371,7 +372,7 @@ Proof.
       apply obj_len_ok in EL. destruct EL as [ob' [Hg Ed]].
       assert (ob' = ob) by (destruct Ho as [Ho _]; congruence). subst ob'.
       apply ns_ok; [exact D1c | exact J1c | | intros F; contradiction].
-      intros l2 E. injection E as <-. split; [apply (proj1 (proj2 D1) o ob cl Ho Ed)|].
+      intros l2 E. injection E as <-. split; [apply (proj1 (proj1 (proj2 D1) o ob cl Ho Ed))|].
       eapply partner_sub; [apply livesub_collect|]. eapply partner_unique; eauto.
     + destruct (is_singleton_err k) eqn:Ek; [|apply ns_err_other; [exact D1 | exact Ek]].
       apply ns_ok; [exact D1c | exact J1c | intros l2 E; discriminate | intros F; contradiction].
@@ -570,7 +571,7 @@ Proof.
            assert (ob' = ob) by (destruct Ho as [Ho _]; congruence). subst ob'.
            assert (Hoc : live_obj (heap (collect st)) o ob) by (apply (live_after_collect ct); auto).
            assert (HP : forall l2, Some cl = Some l2 -> l2 <> 0%Z /\ PartnerOK (collect st) c n l2).
-           { intros l2 E2. injection E2 as <-. split; [apply (proj1 (proj2 D) o ob cl Ho Ed)|].
+           { intros l2 E2. injection E2 as <-. split; [apply (proj1 (proj1 (proj2 D) o ob cl Ho Ed))|].
              eapply partner_unique; eauto. }
            destruct (dom_finish_spec ct c (collect st) (is_none (Some n)) n (Some cl) Ic Dc Hk Ene HP) as [F1 F2 F3 F4 F5].
            cbn [fst snd]. intros E j oj Hj Ecj Enj. rewrite (F3 k e E S) in Hj.
